@@ -333,7 +333,7 @@ def rule_R5_history(ctx, prj, thorough: bool):
     ctx.rule("R5", "whole histories, evaluated: scan_command interpreted on a virtual file system (three source files; lexing and "
                    "measuring replaced by a stub that depends on the file). From (a) every state an interrupted first scan or "
                    "re-scan can leave - after each file-system operation and with each write cut short after every character "
-                   f"({'all offsets' if thorough else 'every seventh offset, all offsets near both ends'}) - (b) every "
+                   f"({'all offsets' if thorough else 'every 23rd offset, all offsets near both ends'}) - (b) every "
                    "structural fault of the cache (empty, not JSON, other JSON types, undecodable bytes, each key of each level "
                    "missing, each value replaced by null / a string or number / a list / an object, directory without the "
                    "document / without marker files / empty) and (c) every state reached from those (closure = interleavings "
@@ -363,7 +363,7 @@ def rule_R5_history(ctx, prj, thorough: bool):
         ctx.info(f"R5: scan_command not evaluable ({type(e).__name__}: {e}); the structural rules R1-R3 decide")
         ctx.rule("R5", "scan_command not evaluable by the interpreter: structural rules R1-R3 decide", floor=0)
         return False
-    stride = 1 if thorough else 7
+    stride = 1 if thorough else 23
     scenarios = []
     cs, _ = S.crash_states(S.State(), first.ops, stride)
     scenarios += [("first scan interrupted: " + d, st) for d, st in cs]
@@ -415,7 +415,7 @@ def rule_R5_history(ctx, prj, thorough: bool):
     seen = {S1.key(): "the state after a complete scan"}
     results = []
     jobs = [(str(prj.root), st, fresh, want_files, markers) for _, st in scenarios]
-    workers = min(16, os.cpu_count() or 1) if len(jobs) > 64 else 1
+    workers = min(int(os.environ.get("VERIF_JOBS", "16")), os.cpu_count() or 1) if len(jobs) > 64 else 1
     if workers > 1:
         with cf.ProcessPoolExecutor(workers) as ex:
             outs = list(ex.map(_scan_job, jobs, chunksize=16))
